@@ -97,3 +97,66 @@ Definition copy_instance (src dst : N) (s : store) : store :=
                           | _ => acc
                           end)
             (scan (fst (key_range src)) (snd (key_range src)) s) s.
+
+(* ---- Round 4: keys-only listings, the keyvalue endpoints, DeleteRange as an abstract operation ---- *)
+
+(* a keys-only range read of a list of abstract GETs: the keys that have a value, the first
+   unresolved conflict fails the whole listing *)
+Fixpoint keys_of_core (l : list (N * rres)) : res (list N) :=
+  match l with
+  | [] => Ok []
+  | (k, RFound _ _) :: r => res_bind (keys_of_core r) (fun l' => Ok (k :: l'))
+  | (_, RNone) :: r => keys_of_core r
+  | (_, RConflict) :: _ => Err
+  | (_, RFuel) :: _ => Panic
+  end.
+(* ... with values *)
+Fixpoint vals_of_core (l : list (N * rres)) : res (list (N * N)) :=
+  match l with
+  | [] => Ok []
+  | (k, RFound _ x) :: r => res_bind (vals_of_core r) (fun l' => Ok ((k, x) :: l'))
+  | (_, RNone) :: r => vals_of_core r
+  | (_, RConflict) :: _ => Err
+  | (_, RFuel) :: _ => Panic
+  end.
+
+Definition res_map {A B} (f : A -> B) (r : res A) : res B :=
+  match r with Ok a => Ok (f a) | Err => Err | Panic => Panic end.
+
+(* the abstract keys that have an entry at some version (each once) *)
+Definition core_keys (c : core) : list N := nodup N.eq_dec (map (fun e => fst (fst e)) (Core.store c)).
+
+(* insertion sort of abstract keys by the byte order of their encodings *)
+Fixpoint insert_by (enc : N -> bytes) (k : N) (l : list N) : list N :=
+  match l with
+  | [] => [k]
+  | x :: r => match lex_compare (enc k) (enc x) with
+              | Lt => k :: l
+              | Eq => l
+              | Gt => x :: insert_by enc k r
+              end
+  end.
+Definition sort_by (enc : N -> bytes) (l : list N) : list N := fold_right (insert_by enc) [] l.
+
+(* the abstract keys with an entry whose encoding lies in [lo, hi], ascending *)
+Definition interval_keys (enc : N -> bytes) (c : core) (lo hi : bytes) : list N :=
+  sort_by enc (filter (fun k => lex_leb lo (enc k) && lex_leb (enc k) hi) (core_keys c)).
+
+(* the abstract answers *)
+Definition abs_gets (c : core) (v : V) (ks : list N) : list (N * rres) := map (fun k => (k, get c k v)) ks.
+Definition abs_keys_in_range (enc : N -> bytes) (c : core) (v : V) (lo hi : bytes) : res (list N) :=
+  keys_of_core (abs_gets c v (interval_keys enc c lo hi)).
+Definition abs_get_range (enc : N -> bytes) (c : core) (v : V) (lo hi : bytes) : res (list (N * N)) :=
+  vals_of_core (abs_gets c v (interval_keys enc c lo hi)).
+
+(* DeleteRange(v, [lo, hi]) on the abstract core: a tombstone at v for every key of the interval
+   that reads as a value at v (nothing when a conflict stops the scan: see delete_range) *)
+Definition core_with (c : core) (k : N) (v : V) (e : entry) : core :=
+  {| next := next c; dag := dag c; nodes := nodes c; locked := locked c; Core.store := ((k, v), e) :: Core.store c |}.
+Definition core_delete_keys (c : core) (v : V) (ks : list N) : core :=
+  fold_left (fun c k => core_with c k v Tomb) ks c.
+Definition core_delete_range (enc : N -> bytes) (c : core) (v : V) (lo hi : bytes) : res core :=
+  res_map (core_delete_keys c v) (abs_keys_in_range enc c v lo hi).
+
+(* keyvalue: abstract key n is the key string [kstr n] *)
+Definition kv_enc (kstr : N -> bytes) (k : N) : bytes := kv_tkey (kstr k).
